@@ -21,6 +21,7 @@ from basana.core.event_sources import trading_signal as _ts
 from mc.chooser import Chooser, explore
 from mc.framework import Result, h64, VERIF
 from worlds.dsp import Gates, T, run_on_vloop, secs
+from worlds import exch, exch_bfs
 
 PROPERTY = "C03"
 RULE = ("scenario = (#pairs, timestamp pattern, source layout, subscription order, strategy path (bar / trading signal / "
@@ -67,8 +68,45 @@ def base_scenarios(tier):
     return out
 
 
+_PROBE = ("import sys; sys.path.insert(0, %r)\nfrom mc import repo; repo.bind()\nimport basana as bs\n"
+          "B, S = bs.OrderOperation.BUY, bs.OrderOperation.SELL\n"
+          "P = [bs.Pair('BTC', 'USD'), bs.Pair('ETH', 'USD'), bs.Pair('ETH', 'BTC')]\n"
+          "sets = [(B, S), ('BTC', 'USD'), ('ETH', 'USD'), ('BTC', 'ETH'), (P[0], P[1]), (P[0], P[2]), (P[1], P[2])]\n"
+          "print(''.join('0' if list({a, b})[0] == a else '1' for a, b in sets))")
+
+
+def covering_seeds(extra):
+    """Hash seeds chosen so that every two-element set of the values the exchange keeps in hash-ordered collections (the two
+    order operations, symbols, pairs) is iterated in BOTH orders by some run: the parent runs under seed 0, the children
+    under the returned seeds. (A fixed list of seeds can agree with seed 0 on any given set by chance.)"""
+    sig = {}
+    parent = os.environ.get("PYTHONHASHSEED", "0")
+    parent = int(parent) if parent.isdigit() else 0
+    for hs in sorted({parent} | set(range(0, 17))):
+        env = dict(os.environ, PYTHONHASHSEED=str(hs))
+        out = subprocess.run([sys.executable, "-B", "-c", _PROBE % VERIF], env=env, capture_output=True, text=True, cwd=VERIF)
+        if out.returncode != 0:
+            raise RuntimeError("hash-seed probe failed: " + out.stderr[-300:])
+        sig[hs] = out.stdout.strip().splitlines()[-1]
+    base = sig[parent]
+    need = set(range(len(base)))
+    chosen = []
+    while need:
+        best = max((h_ for h_ in range(0, 17) if h_ != parent),
+                   key=lambda hs: (len([i for i in need if sig[hs][i] != base[i]]), -hs))
+        gain = [i for i in need if sig[best][i] != base[i]]
+        if not gain:
+            break
+        chosen.append(best)
+        need -= set(gain)
+    for hs in extra:
+        if hs not in chosen:
+            chosen.append(hs)
+    return chosen
+
+
 def scenarios(tier, seed):
-    seeds = [1, 2 + (seed % 1000)] if tier == "quick" else [1, 2 + (seed % 1000), 12345, 4242]
+    seeds = covering_seeds([1] if tier == "quick" else [1, 2 + (seed % 1000), 12345, 4242])
     out = [("hashseed", s, tier) for s in seeds]  # first: they are the longest single work items
     # lending histories (several equal loans, auto-repay orders that can afford only some of them): results must not
     # depend on the random order / loan ids
@@ -239,7 +277,32 @@ def clause2_digest(tier):
         for maxc in MAXCS:
             r = make_run(base, maxc)(Chooser([]))
             h.update(repr((base, maxc, observable(r))).encode())
+    # plus complete observations (fills, fees, balances, loans, event streams) of exchange histories in which several
+    # orders - both sides, all types - compete for the same bar under fees, finite liquidity and lending: any iteration over
+    # a hash-ordered collection inside order matching / repayment shows up as a different digest under another hash seed
+    try:
+        for cfg, hist in seed_histories():
+            h.update(repr(exch_bfs.normalized(exch_bfs.run_sync(cfg, hist))).encode())
+    finally:
+        exch.install_random_ids()  # the schedule-exploration scenarios of this worker run with the library's own uuid4 ids
     return h.hexdigest()
+
+
+def seed_histories():
+    from checks import _exch_common as X
+    exch.install_deterministic_ids()
+    out = []
+    for name, level in (("K0", "liq"), ("K1", "lend"), ("K5", "pairs2")):
+        cfg = X.CONFIGS[name]
+        alpha = [a for a in exch.alphabet(cfg, level) if a[0] != "bar="]
+        acts = [a for a in alpha if a[0] != "bar"]
+        first = [a for a in alpha if a[0] == "bar"][0]
+        last = [a for a in alpha if a[0] == "bar"][:2]
+        for a1 in acts:
+            for a2 in acts:
+                for b in last:
+                    out.append((cfg, [first, a1, a2, b]))
+    return out
 
 
 TIE_CONFIGS = {
@@ -314,7 +377,10 @@ def run_ids(sc, res):
 def run_scenario(sc, tier):
     res = Result()
     if sc[0] == "ids":
-        return run_ids(sc, res)
+        try:
+            return run_ids(sc, res)
+        finally:
+            exch.install_random_ids()
     if sc[0] == "hashseed":
         _, hs, t = sc
         mine = clause2_digest(t)
